@@ -216,6 +216,10 @@ func liWorldGen(r *Run, rng *Rng, w *liWorld, steps int) {
 					if rng.Chance(50) {
 						k = 1000 + rng.Intn(1+nev) // the block row or one of the events' own rows
 					}
+					if rng.Chance(20) {
+						k = 5000 + rng.Intn(2) // a read fault: one of the root tables is unreadable during the block
+						r.Count("branch:read-fault")
+					}
 					if o := w.exec(r, strings.TrimSpace(fmt.Sprintf("blk! %d %d %s", bn, k, evs))); o == "err fault" {
 						faulted = true
 						if rng.Chance(30) {
